@@ -20,8 +20,26 @@ type rdTok struct {
 	s string
 }
 
-func rdLex(text []byte) ([]string, bool) {
+// rdLex: the tokens, and for each token the leading comment attached to it by
+// the protobuf rule: the // lines that stand alone on the lines directly above
+// the line the token starts, with no blank line in between (a comment that
+// follows a token on its line is a trailing comment and belongs to nothing
+// below it).
+func rdLex(text []byte) ([]string, []string, bool) {
 	toks := []string{}
+	leads := []string{}
+	pending := ""                   // the comment block collected so far
+	lineTok, lineCom := false, false // the current line holds a token / a comment
+	emit := func(t string) {
+		l := ""
+		if !lineTok {
+			l = pending
+		}
+		pending = ""
+		lineTok = true
+		toks = append(toks, t)
+		leads = append(leads, l)
+	}
 	i := 0
 	isWord := func(c byte) bool {
 		return c == '_' || c == '.' || (c >= '0' && c <= '9') || (c >= 'a' && c <= 'z') || (c >= 'A' && c <= 'Z')
@@ -29,12 +47,24 @@ func rdLex(text []byte) ([]string, bool) {
 	for i < len(text) {
 		c := text[i]
 		switch {
-		case c == ' ' || c == '\n' || c == '\t' || c == '\r':
+		case c == '\n':
+			if !lineCom || lineTok {
+				pending = "" // a blank line, or a line of code, ends the block
+			}
+			lineTok, lineCom = false, false
+			i++
+		case c == ' ' || c == '\t' || c == '\r':
 			i++
 		case c == '/' && i+1 < len(text) && text[i+1] == '/':
-			for i < len(text) && text[i] != '\n' {
-				i++
+			j := i + 2
+			for j < len(text) && text[j] != '\n' {
+				j++
 			}
+			if !lineTok {
+				pending += string(text[i+2:j]) + "\n"
+				lineCom = true
+			}
+			i = j
 		case c == '"':
 			j := i + 1
 			for j < len(text) && text[j] != '"' {
@@ -44,23 +74,23 @@ func rdLex(text []byte) ([]string, bool) {
 				j++
 			}
 			if j >= len(text) {
-				return nil, false
+				return nil, nil, false
 			}
-			toks = append(toks, string(text[i:j+1]))
+			emit(string(text[i : j+1]))
 			i = j + 1
 		case isWord(c):
 			j := i
 			for j < len(text) && isWord(text[j]) {
 				j++
 			}
-			toks = append(toks, string(text[i:j]))
+			emit(string(text[i:j]))
 			i = j
 		default:
-			toks = append(toks, string(text[i:i+1]))
+			emit(string(text[i : i+1]))
 			i++
 		}
 	}
-	return toks, true
+	return toks, leads, true
 }
 
 type rdField struct {
@@ -69,6 +99,7 @@ type rdField struct {
 	oneof            string
 	mapKey, mapVal   string
 	opts             []rdLeaf
+	lead             string
 }
 type rdMessage struct {
 	name   string
@@ -77,15 +108,21 @@ type rdMessage struct {
 	enums  []*rdEnum
 	oneofs []string
 	opts   []rdLeaf
+	lead   string
+	// leading comments of oneofs (by name) and of enum values ("Enum.VALUE")
+	leads map[string]string
 }
 type rdEnum struct {
 	name   string
 	values [][2]string
 	opts   []rdLeaf
+	lead   string
+	vlead  map[string]string
 }
 type rdMethod struct {
 	name, in, out string
 	opts          []rdLeaf
+	lead          string
 }
 
 // rdLeaf: one scalar of an option value, addressed by its path from the option
@@ -96,6 +133,7 @@ type rdService struct {
 	name    string
 	methods []rdMethod
 	opts    []rdLeaf
+	lead    string
 }
 type rdFile struct {
 	syntax, pkg string
@@ -107,9 +145,18 @@ type rdFile struct {
 }
 
 type rdParser struct {
-	t   []string
-	pos int
-	ok  bool
+	t    []string
+	lead []string
+	pos  int
+	ok   bool
+}
+
+// leadAt: the leading comment of the token at index i
+func (p *rdParser) leadAt(i int) string {
+	if i >= 0 && i < len(p.lead) {
+		return p.lead[i]
+	}
+	return ""
 }
 
 func (p *rdParser) peek() string {
@@ -203,6 +250,9 @@ func (p *rdParser) bracketOptions() []rdLeaf {
 	for p.ok {
 		name := p.optName()
 		p.expect("=")
+		if p.peek() == "[" { // the proto grammar has no list constant: lists only inside { }
+			p.ok = false
+		}
 		p.optValue(name, &out)
 		if p.peek() != "," {
 			break
@@ -217,12 +267,15 @@ func (p *rdParser) bracketOptions() []rdLeaf {
 func (p *rdParser) optionStatement(out *[]rdLeaf) {
 	name := p.optName()
 	p.expect("=")
+	if p.peek() == "[" { // the proto grammar has no list constant: lists only inside { }
+		p.ok = false
+	}
 	p.optValue(name, out)
 	p.expect(";")
 }
 
 func (p *rdParser) field(oneof string) *rdField {
-	f := &rdField{oneof: oneof}
+	f := &rdField{oneof: oneof, lead: p.leadAt(p.pos)}
 	w := p.next()
 	if w == "repeated" || w == "optional" {
 		f.label = w
@@ -249,7 +302,7 @@ func (p *rdParser) field(oneof string) *rdField {
 }
 
 func (p *rdParser) enum() *rdEnum {
-	e := &rdEnum{name: p.next()}
+	e := &rdEnum{lead: p.leadAt(p.pos - 1), name: p.next(), vlead: map[string]string{}}
 	p.expect("{")
 	for p.ok && p.peek() != "}" && p.peek() != "" {
 		n := p.next()
@@ -257,6 +310,7 @@ func (p *rdParser) enum() *rdEnum {
 			p.optionStatement(&e.opts)
 			continue
 		}
+		e.vlead[n] = p.leadAt(p.pos - 1)
 		p.expect("=")
 		v := p.next()
 		if p.peek() == "[" {
@@ -272,7 +326,7 @@ func (p *rdParser) enum() *rdEnum {
 }
 
 func (p *rdParser) message() *rdMessage {
-	m := &rdMessage{name: p.next()}
+	m := &rdMessage{lead: p.leadAt(p.pos - 1), name: p.next(), leads: map[string]string{}}
 	p.expect("{")
 	for p.ok && p.peek() != "}" && p.peek() != "" {
 		switch p.peek() {
@@ -288,6 +342,7 @@ func (p *rdParser) message() *rdMessage {
 		case "oneof":
 			p.next()
 			on := p.next()
+			m.leads[on] = p.leadAt(p.pos - 2)
 			m.oneofs = append(m.oneofs, on)
 			p.expect("{")
 			for p.ok && p.peek() != "}" && p.peek() != "" {
@@ -303,11 +358,11 @@ func (p *rdParser) message() *rdMessage {
 }
 
 func rdParse(text []byte) (*rdFile, bool) {
-	toks, ok := rdLex(text)
+	toks, leads, ok := rdLex(text)
 	if !ok {
 		return nil, false
 	}
-	p := &rdParser{t: toks, ok: true}
+	p := &rdParser{t: toks, lead: leads, ok: true}
 	f := &rdFile{}
 	for p.ok && p.peek() != "" {
 		switch p.next() {
@@ -322,7 +377,7 @@ func rdParse(text []byte) (*rdFile, bool) {
 			f.imports = append(f.imports, p.next())
 			p.expect(";")
 		case "extend":
-			x := &rdMessage{name: p.next()}
+			x := &rdMessage{name: p.next(), leads: map[string]string{}}
 			p.expect("{")
 			for p.ok && p.peek() != "}" && p.peek() != "" {
 				x.fields = append(x.fields, p.field(""))
@@ -334,14 +389,14 @@ func rdParse(text []byte) (*rdFile, bool) {
 		case "enum":
 			f.enums = append(f.enums, p.enum())
 		case "service":
-			s := &rdService{name: p.next()}
+			s := &rdService{lead: p.leadAt(p.pos - 1), name: p.next()}
 			p.expect("{")
 			for p.ok && (p.peek() == "rpc" || p.peek() == "option") {
 				if p.next() == "option" {
 					p.optionStatement(&s.opts)
 					continue
 				}
-				m := rdMethod{name: p.next()}
+				m := rdMethod{lead: p.leadAt(p.pos - 1), name: p.next()}
 				p.expect("(")
 				m.in = p.next()
 				p.expect(")")
@@ -386,11 +441,37 @@ func rdItoa(v int32) string {
 	return s
 }
 
+// rdWantLead: the leading comment the descriptor records for exactly this path
+func rdWantLead(fdp *descriptorpb.FileDescriptorProto, base []int32, more ...int32) string {
+	path := append(append([]int32{}, base...), more...)
+	for _, loc := range fdp.GetSourceCodeInfo().GetLocation() {
+		if len(loc.Path) != len(path) {
+			continue
+		}
+		same := true
+		for i := range path {
+			if loc.Path[i] != path[i] {
+				same = false
+			}
+		}
+		if same {
+			return loc.GetLeadingComments()
+		}
+	}
+	return ""
+}
+
 // rdCheckMessage: the read-back message against the printed descriptor
-func rdCheckMessage(u *j5schema.VerifUniverse, want *j5schema.VerifMessage, dp *descriptorpb.DescriptorProto, got *rdMessage, tag string) {
+func rdCheckMessage(u *j5schema.VerifUniverse, want *j5schema.VerifMessage, dp *descriptorpb.DescriptorProto, got *rdMessage, tag string, fdp *descriptorpb.FileDescriptorProto, path []int32) {
+	verifAssert(got.lead == rdWantLead(fdp, path), "message-leading-comment"+tag)
+	for o, od := range dp.OneofDecl {
+		if l, printed := got.leads[od.GetName()]; printed {
+			verifAssert(l == rdWantLead(fdp, path, 8, int32(o)), "oneof-leading-comment"+tag)
+		}
+	}
 	// fields by number
 	declared := 0
-	for _, fd := range dp.Field {
+	for fi, fd := range dp.Field {
 		declared++
 		var g *rdField
 		for _, c := range got.fields {
@@ -403,6 +484,7 @@ func rdCheckMessage(u *j5schema.VerifUniverse, want *j5schema.VerifMessage, dp *
 			continue
 		}
 		verifAssert(g.name == fd.GetName(), "field-name"+tag)
+		verifAssert(g.lead == rdWantLead(fdp, path, 2, int32(fi)), "field-leading-comment"+tag)
 		// label
 		wantLabel := ""
 		isMapField := false
@@ -457,19 +539,19 @@ func rdCheckMessage(u *j5schema.VerifUniverse, want *j5schema.VerifMessage, dp *
 		}
 		verifAssert(g != nil, "nested-message-printed"+tag)
 		if g != nil {
-			rdCheckMessage(u, want.VerifNested(i), nd, g, tag)
+			rdCheckMessage(u, want.VerifNested(i), nd, g, tag, fdp, append(append([]int32{}, path...), 3, int32(i)))
 		}
 	}
 	verifAssert(len(got.nested) == printedNested, "no-extra-nested-messages"+tag)
 	verifAssert(len(got.enums) == len(dp.EnumType), "nested-enums-printed"+tag)
 	for i, ed := range dp.EnumType {
 		if i < len(got.enums) {
-			rdCheckEnum(ed, got.enums, tag)
+			rdCheckEnum(ed, got.enums, tag, fdp, append(append([]int32{}, path...), 4, int32(i)))
 		}
 	}
 }
 
-func rdCheckEnum(ed *descriptorpb.EnumDescriptorProto, got []*rdEnum, tag string) {
+func rdCheckEnum(ed *descriptorpb.EnumDescriptorProto, got []*rdEnum, tag string, fdp *descriptorpb.FileDescriptorProto, path []int32) {
 	var g *rdEnum
 	for _, c := range got {
 		if c.name == ed.GetName() {
@@ -480,8 +562,10 @@ func rdCheckEnum(ed *descriptorpb.EnumDescriptorProto, got []*rdEnum, tag string
 	if g == nil {
 		return
 	}
+	verifAssert(g.lead == rdWantLead(fdp, path), "enum-leading-comment"+tag)
 	verifAssert(len(g.values) == len(ed.Value), "enum-value-count"+tag)
-	for _, v := range ed.Value {
+	for vi, v := range ed.Value {
+		verifAssert(g.vlead[v.GetName()] == rdWantLead(fdp, path, 2, int32(vi)), "enum-value-leading-comment"+tag)
 		found := false
 		for _, gv := range g.values {
 			if gv[0] == v.GetName() && gv[1] == rdItoa(v.GetNumber()) {
@@ -533,12 +617,13 @@ func HarnessPrintFileReadBack() {
 		n += len(x.fields)
 	}
 	verifAssert(n == len(fdp.Extension), "every-extension-printed-once")
-	for _, xd := range fdp.Extension {
+	for xi, xd := range fdp.Extension {
 		found := false
 		for _, x := range got.extends {
 			for _, xf := range x.fields {
 				if "."+x.name == xd.GetExtendee() && xf.name == xd.GetName() && xf.number == rdItoa(xd.GetNumber()) {
 					found = true
+					verifAssert(xf.lead == rdWantLead(fdp, []int32{7, int32(xi)}), "extension-leading-comment")
 				}
 			}
 		}
@@ -554,24 +639,26 @@ func HarnessPrintFileReadBack() {
 		}
 		verifAssert(g != nil, "top-level-message-printed")
 		if g != nil {
-			rdCheckMessage(u, u.Files[0].Message(i), md, g, ":"+md.GetName())
+			rdCheckMessage(u, u.Files[0].Message(i), md, g, ":"+md.GetName(), fdp, []int32{4, int32(i)})
 		}
 	}
 	verifAssert(len(got.enums) == len(fdp.EnumType), "top-level-enum-count")
-	for _, ed := range fdp.EnumType {
-		rdCheckEnum(ed, got.enums, ":"+ed.GetName())
+	for ei, ed := range fdp.EnumType {
+		rdCheckEnum(ed, got.enums, ":"+ed.GetName(), fdp, []int32{5, int32(ei)})
 	}
 	verifAssert(len(got.services) == len(fdp.Service), "service-count")
-	for _, sd := range fdp.Service {
+	for si, sd := range fdp.Service {
 		for _, gs := range got.services {
 			if gs.name != sd.GetName() {
 				continue
 			}
+			verifAssert(gs.lead == rdWantLead(fdp, []int32{6, int32(si)}), "service-leading-comment")
 			verifAssert(len(gs.methods) == len(sd.Method), "method-count")
 			for k, md := range sd.Method {
 				if k < len(gs.methods) {
 					gm := gs.methods[k]
 					verifAssert(gm.name == md.GetName(), "method-name")
+					verifAssert(gm.lead == rdWantLead(fdp, []int32{6, int32(si), 2, int32(k)}), "method-leading-comment")
 					wi, _ := u.VerifResolveFrom(md.GetInputType(), u.VerifPackageScope(0))
 					gi, _ := u.VerifResolveFrom(gm.in, u.VerifPackageScope(0))
 					wo, _ := u.VerifResolveFrom(md.GetOutputType(), u.VerifPackageScope(0))
